@@ -74,4 +74,44 @@ theorem await_eq_gen (s : Send) (sid maxBytes : Nat) (a : Int) (ea : tget s.wins
   unfold Send.await awaitTakeOf
   simp only [ea]
 
+/-! ### flow.go: regenerated `outflow.available/take/add` = `Model.Flow.Outflow` -/
+
+theorem gen_wrap32_eq (x : Int) : NetVerif.Gen.C08.Flow.wrap32 x = wrap32 x := rfl
+
+/-- Encoding of `outflow.conn` for the translated functions: flag and counter. -/
+def connFlag (f : Outflow) : Int := match f.conn with | some _ => 1 | none => 0
+def connN (f : Outflow) : Int := match f.conn with | some c => c | none => 0
+
+theorem gen_outflowAvailable_eq (f : Outflow) :
+    NetVerif.Gen.C08.Flow.outflowAvailable f.n (connFlag f) (connN f) = some f.available := by
+  unfold NetVerif.Gen.C08.Flow.outflowAvailable Outflow.available connFlag connN
+  cases hc : f.conn with
+  | none => simp
+  | some c =>
+    by_cases h : c < f.n <;> simp [h]
+
+theorem gen_outflowTake_eq (f : Outflow) (n : Int) :
+    NetVerif.Gen.C08.Flow.outflowTake f.n (connFlag f) (connN f) n =
+      (f.take n).map (fun g => (g.n, connFlag g, connN g)) := by
+  unfold NetVerif.Gen.C08.Flow.outflowTake NetVerif.Gen.C08.Flow.outflowAvailableD
+  rw [gen_outflowAvailable_eq]
+  unfold Outflow.take
+  by_cases h : n > f.available
+  · simp [h]
+  · simp only [Option.getD_some, h, if_false, Option.map_some]
+    unfold connFlag connN
+    cases hc : f.conn with
+    | none => simp [gen_wrap32_eq]
+    | some c => simp [gen_wrap32_eq]
+
+theorem gen_outflowAdd_eq (f : Outflow) (n : Int) :
+    NetVerif.Gen.C08.Flow.outflowAdd f.n (connFlag f) (connN f) n =
+      some ((f.add n).1, (f.add n).2.n, connFlag (f.add n).2, connN (f.add n).2) := by
+  unfold NetVerif.Gen.C08.Flow.outflowAdd Outflow.add
+  rw [gen_wrap32_eq]
+  by_cases h : (decide (wrap32 (f.n + n) > n)) = (decide (f.n > 0))
+  · simp only [h, if_true]
+    rfl
+  · simp only [h, if_false]
+
 end NetVerif.Proofs.SendWinGen
